@@ -159,24 +159,47 @@ def fe_case(rng, fe):
     return c
 
 
-def weight_cases(rng, n):
-    """many requests against one configuration with several positively weighted subnets (reachability search)"""
+WEIGHTS = [("10.1.0.0/24", 1), ("11.0.0.0/8", 2.5), ("172.16.5.6/31", 1), ("198.51.100.128/25", 1)]
+
+
+def weight_cases(rng, n, pcts=(100, 30, 50, 80), keep=40):
+    """many requests against one configuration with several positively weighted subnets, for override percentages
+    below 100 as well: the reachability search, and the deterministic check that the weighted choice follows the draw
+    math/rand.Float64 (pinned by the seed, reported by the driver) independently of the draw that decides WHETHER to
+    override.  Only the first `keep` cases of a group are also compared with the Coq model (the others are search only)."""
     out = []
-    for transport, tname in ((1, "Min_Transport"), (4, "Prefix_Transport")):
-        subs = [{"cidr": c, "weight": w, "port": 443 + i, "transport": tname, "prefix_id": i + 1}
-                for i, (c, w) in enumerate([("10.1.0.0/24", 1), ("11.0.0.0/8", 2.5), ("172.16.5.6/31", 0.5), ("198.51.100.128/25", 1)])]
-        for j in range(n):
-            out.append({"kind": "bd", "group": "weights/%d" % transport,
-                        "cfg": {"auth": False, "overrides": "none", "transports": [1, 4], "enforce": True, "subnets": subs, "exclusions": [],
-                                "pmin": 100, "pprefix": 100, "send_ok": True},
-                        "sel": {"v4": "9.8.7.6", "rand4": True, "err4": False, "v6": "fd00::1", "rand6": True, "err6": False},
-                        "req": {"secret": bytes(rng.getrandbits(8) for _ in range(32)).hex(), "payload": True, "v4": True, "v6": j % 2 == 0,
-                                "transport": transport, "params": {"kind": "prefix", "prefix_id": 1} if transport == 4 else {"kind": "generic"},
-                                "disable_ov": None, "libver": 4, "gen": 1, "forged_resp": None, "forged_bytes": None, "forged_sig": None,
-                                "source": None, "addr": None},
-                        "client_addr": "00000000000000000000ffffc6336401", "method": 4, "seed": rng.randrange(1, 1 << 31), "pre": "",
-                        "station": {"v4": True, "v6": True, "transports": [1, 4]}})
+    for pct in pcts:
+        for transport, tname in ((1, "Min_Transport"), (4, "Prefix_Transport")):
+            subs = [{"cidr": c, "weight": w, "port": 443 + i, "transport": tname, "prefix_id": i + 1} for i, (c, w) in enumerate(WEIGHTS)]
+            for j in range(n if pct == 100 else int(n * 100 / pct)):
+                out.append({"kind": "bd", "group": "weights/t%d/p%d" % (transport, pct), "noterm": j >= keep,
+                            "cfg": {"auth": False, "overrides": "none", "transports": [1, 4], "enforce": True, "subnets": subs, "exclusions": [],
+                                    "pmin": pct, "pprefix": pct, "send_ok": True},
+                            "sel": {"v4": "9.8.7.6", "rand4": True, "err4": False, "v6": "fd00::1", "rand6": True, "err6": False},
+                            "req": {"secret": bytes(rng.getrandbits(8) for _ in range(32)).hex(), "payload": True, "v4": True, "v6": j % 2 == 0,
+                                    "transport": transport, "params": {"kind": "prefix", "prefix_id": 1} if transport == 4 else {"kind": "generic"},
+                                    "disable_ov": None, "libver": 4, "gen": 1, "forged_resp": None, "forged_bytes": None, "forged_sig": None,
+                                    "source": None, "addr": None},
+                            "client_addr": "00000000000000000000ffffc6336401", "method": 4, "seed": rng.randrange(1, 1 << 31), "pre": "",
+                            "station": {"v4": True, "v6": True, "transports": [1, 4]}})
     return out
+
+
+def expected_subnet(subs, f_num):
+    """index of the subnet the weighted choice must pick for the draw f = f_num / 2^53 (exact rationals);
+    None when f is within 1e-9 of an interval boundary (float rounding of the table) or no subnet matches"""
+    f = Fraction(f_num, 1 << 53)
+    tot = sum(Fraction(x["weight"]) for x in subs)
+    if tot <= 0:
+        return None
+    acc = Fraction(0)
+    for i, x in enumerate(subs):
+        acc += Fraction(x["weight"])
+        if abs(f - acc / tot) < Fraction(1, 10 ** 9):
+            return None
+        if f < acc / tot:
+            return i
+    return None
 
 
 # ------------------------------------------------------------------ Gallina emitters
@@ -496,7 +519,7 @@ def run(ctx):
             if q["forged_resp"] and rng.random() < 0.7:
                 q["forged_resp"]["v6"] = rng.choice([None, "fd0000000000000000000000000000ee"])
         cases.append(c)
-    cases += weight_cases(rng, 150 if quick else 1200)
+    cases += weight_cases(rng, 240 if quick else 1200)
     cases += port_cases(rng)
     nfe = 150 if quick else 1500
     cases += [fe_case(rng, "api") for _ in range(nfe)] + [fe_case(rng, "dns") for _ in range(nfe)]
@@ -512,29 +535,46 @@ def run(ctx):
             return
         for i, r in zip(idx, part):
             res[i] = r
-    terms = []
+    terms, tidx = [], []
     hits = {}
-    for c, r in zip(cases, res):
+    for ci, (c, r) in enumerate(zip(cases, res)):
         kind = oracle(ctx, c, r)
         ctx.count((c["kind"], repr(c)), nontrivial=True, kind=kind)
-        terms.append(gcase(c, r))
+        if not c.get("noterm"):
+            terms.append(gcase(c, r))
+            tidx.append(ci)
         g = c.get("group")
         if g and r["resp"] and r["resp"]["v4"] is not None:
-            h = hits.setdefault(g, {"n": 0, "subs": c["cfg"]["subnets"], "count": {}})
+            h = hits.setdefault(g, {"n": 0, "over": 0, "subs": c["cfg"]["subnets"], "count": {}, "pct": c["cfg"]["pmin"]})
             h["n"] += 1
+            if r["resp"]["v4"] == ip4(c["sel"]["v4"]):
+                continue                       # the percentage gate did not let this one be overridden
+            h["over"] += 1
+            got = None
             for i, s in enumerate(c["cfg"]["subnets"]):
                 if in_net(s["cidr"], r["resp"]["v4"]):
                     h["count"][i] = h["count"].get(i, 0) + 1
-    # every override subnet with a positive weight is used (search: statistical)
+                    got = i
+            # deterministic: the subnet must be the one the pinned draw f selects, whatever the gate draw was
+            want = expected_subnet(c["cfg"]["subnets"], r["or"]["f_num"])
+            if want is not None and got is not None and got != want:
+                ctx.fail("weighted-choice-ignores-draw", "override percentage %s, draw f = %.6f selects subnet #%d %s (weights %s) but the "
+                         "registrar substituted an address of subnet #%d %s — the weighted choice does not follow its own draw, so "
+                         "subnets are used with the wrong frequency (or never): %s"
+                         % (c["cfg"]["pmin"], r["or"]["f_num"] / float(1 << 53), want, c["cfg"]["subnets"][want]["cidr"],
+                            [x["weight"] for x in c["cfg"]["subnets"]], got, c["cfg"]["subnets"][got]["cidr"], short(c)), c)
+    # every override subnet with a positive weight is used (search: statistical; expected count >= 40 => P(false alarm) < e^-40)
     for g, h in hits.items():
         tot = sum(s["weight"] for s in h["subs"])
         for i, s in enumerate(h["subs"]):
-            expect = h["n"] * s["weight"] / tot
-            if s["weight"] > 0 and expect >= 12 and h["count"].get(i, 0) == 0:
-                ctx.fail("weight-unreachable", "override subnet %s (weight %s of %s) was never chosen in %d registrations of %s (chosen: %s)"
-                         % (s["cidr"], s["weight"], tot, h["n"], g, {h["subs"][k]["cidr"]: v for k, v in h["count"].items()}),
-                         {"group": g, "subnets": h["subs"], "counts": h["count"], "n": h["n"]})
-        ctx.cov.setdefault("weights", {})[g] = {h["subs"][k]["cidr"]: v for k, v in sorted(h["count"].items())}
+            expect = h["over"] * s["weight"] / tot
+            if s["weight"] > 0 and expect >= 40 and h["count"].get(i, 0) == 0:
+                ctx.fail("weight-unreachable", "override percentage %s: override subnet %s (weight %s of %s) was never chosen in %d overridden "
+                         "registrations (of %d) of %s (chosen: %s)"
+                         % (h["pct"], s["cidr"], s["weight"], tot, h["over"], h["n"], g, {h["subs"][k]["cidr"]: v for k, v in h["count"].items()}),
+                         {"group": g, "override_percentage": h["pct"], "subnets": h["subs"], "counts": h["count"], "overridden": h["over"], "n": h["n"]})
+        ctx.cov.setdefault("weights", {})[g] = {"overridden": h["over"], "of": h["n"],
+                                                "chosen": {h["subs"][k]["cidr"]: v for k, v in sorted(h["count"].items())}}
     ctx.sample({"case": cases[0], "observed": res[0]})
     ctx.sample({"case": cases[1], "observed": res[1]})
     ctx.require_kinds(["bd/ok/plain/t1", "bd/ok/plain/t4", "bd/ok/subst/t1", "bd/ok/subst/t4", "bd/err-other", "bd/err-noc2s", "bd/err-secret",
@@ -543,7 +583,7 @@ def run(ctx):
     mm = ctx.coq_mismatches("reg", HEADER, terms, "chk", shard=150, need_vo=["C12/Run.vo", "C12/Examples.vo"])
     if mm:
         ctx.cov["mismatches"] += len(mm)
-        i = mm[0]
+        i = tidx[mm[0]]
         ctx.broken("correspondence", "the model (coq/C12: register_bd / register_uni / station) and the implementation disagree on %d case(s); "
                    "first: %s; observed err=%r resp=%s" % (len(mm), short(cases[i]), res[i]["err"], res[i]["resp"]),
                    {**cases[i], "observed": res[i]})
